@@ -313,6 +313,7 @@ def run(chk, repo, tier):
 
     D11 = chk.rule('D11', 'remove_symbol_definitions: every protecting set is closed under dependencies', floor=2)
     closed_protection_sets(chk, D11, repo)
+    run_d12_d14(chk, repo)
     # ---------------------------------------------------------------- D6 closure of keep / remove sets
     D6 = chk.rule('D6', 'sets grown from the dependency graph in a single pass over a copy use a transitive traversal '
                         '(not one-step adjacency)', floor=2)
@@ -581,3 +582,74 @@ def _parent(root, node):
             if ch is node:
                 return p
     return None
+
+
+def run_d12_d14(chk, repo):
+    """D12: the dependency graph links a statement to EVERY earlier definer (no early exit of the inner scan); D13: subs of the
+    ODE system has no shortcut that returns the system unchanged; D14: dependencies(statement) locates a statement argument by
+    position, whatever its kind"""
+    m = repo.module('pharmpy.model.statements')
+    rel = m.rel
+    st = m.classes.get('Statements')
+    D12 = chk.rule('D12', '_create_dependency_graph: the scan over the earlier statements runs to the first statement for every '
+                          'user (no break / return inside it)', floor=1)
+    g = st.methods.get('_create_dependency_graph')
+    if g is None:
+        raise AnalysisError('Statements._create_dependency_graph not found')
+    inner = [L for L in ast.walk(g.node) if isinstance(L, ast.For) and any(
+        isinstance(c, ast.Call) and isinstance(c.func, ast.Attribute) and c.func.attr == 'add_edge' for c in ast.walk(L))
+        and not any(isinstance(x, ast.For) and x is not L and any(
+            isinstance(c, ast.Call) and isinstance(c.func, ast.Attribute) and c.func.attr == 'add_edge' for c in ast.walk(x))
+            for x in ast.walk(L))]
+    if not inner:
+        raise AnalysisError('D12: inner scan of _create_dependency_graph not found')
+    for L in inner:
+        exits = [x for x in ast.walk(L) if isinstance(x, (ast.Break, ast.Return))]
+        chk.instance(D12, f'_create_dependency_graph: `for {unparse(L.target)} in {unparse(L.iter)}` early exits: {len(exits)}')
+        for x in exits:
+            chk.violation(D12, rel, g.qualname, f'{type(x).__name__.lower()} inside the scan over earlier statements',
+                          'a statement that uses an amount and a symbol defined before the ODE system is linked to the system '
+                          'only: its other definitions are missing from the graph', line=x.lineno,
+                          witness='IPRED = A_CENTRAL(t)/V after the elimination rate was reparametrised to K: '
+                                  'remove_symbol_definitions([CL, V], ode) deletes V = THETA_2*WGT although IPRED needs it')
+    D13 = chk.rule('D13', 'CompartmentalSystem.subs: no return that hands back the system itself on a test of its free symbols '
+                          '(amount functions and compound keys are not among them)', floor=1)
+    cs = m.classes.get('CompartmentalSystem')
+    sb = cs.methods.get('subs') if cs else None
+    if sb is None:
+        raise AnalysisError('CompartmentalSystem.subs not found')
+    rets = [r for r in ast.walk(sb.node) if isinstance(r, ast.Return)]
+    chk.instance(D13, f'CompartmentalSystem.subs: {len(rets)} return(s), returning self: '
+                      f'{sum(1 for r in rets if isinstance(r.value, ast.Name) and r.value.id == "self")}')
+    for r in rets:
+        if isinstance(r.value, ast.Name) and r.value.id == 'self':
+            guard = next((I for I in ast.walk(sb.node) if isinstance(I, ast.If) and any(x is r for x in ast.walk(I))), None)
+            gtxt = unparse(guard.test) if guard is not None else ''
+            if guard is None or 'free_symbols' in gtxt or 'isdisjoint' in gtxt:
+                chk.violation(D13, rel, sb.qualname, f'if {gtxt[:80]}: return self',
+                              'the substitution is skipped when no key is a free symbol of the system: keys that are amount '
+                              'functions (A_CENTRAL(t)) or compound expressions (CL/V) are never free symbols', line=r.lineno,
+                              witness='Statements.subs({A_CENTRAL(t): A_CENT(t)}) renames the amount in the assignments but not '
+                                      'in the ODE system: dependencies of F lose every pre-ODE parameter')
+    D14 = chk.rule('D14', 'Statements.dependencies: a statement given as argument is located by its position (self.index) '
+                          'for every kind of statement', floor=1)
+    dp = st.methods.get('dependencies')
+    if dp is None:
+        raise AnalysisError('Statements.dependencies not found')
+    arg = [p for p in dp.params if p != 'self'][0]
+    sites = []
+    for I in [x for x in ast.walk(dp.node) if isinstance(x, ast.If)]:
+        t = I.test
+        if isinstance(t, ast.Call) and dotted(t.func) == 'isinstance' and len(t.args) == 2 and unparse(t.args[0]) == arg \
+                and any(isinstance(c, ast.Call) and unparse(c.func) == 'self.index' for s_ in I.body for c in ast.walk(s_)):
+            sites.append((I, {unparse(x) for x in (t.args[1].elts if isinstance(t.args[1], ast.Tuple) else [t.args[1]])}))
+    if not sites:
+        raise AnalysisError('D14: `if isinstance(arg, Statement): i = self.index(arg)` not found in Statements.dependencies')
+    for I, classes in sites:
+        ok = 'Statement' in classes or {'Assignment', 'CompartmentalSystem'} <= classes
+        chk.instance(D14, f'dependencies: located by position for {sorted(classes)}: covers every statement kind: {ok}')
+        if not ok:
+            chk.violation(D14, rel, dp.qualname, f'isinstance({arg}, {sorted(classes)})',
+                          'an Assignment argument is looked up by its symbol: the LAST assignment of that symbol is used, '
+                          'not the statement that was passed', line=I.lineno,
+                          witness='X = A + B; Z = X*C; X = D: dependencies(first X statement) reports {D} and misses A and B')
